@@ -132,7 +132,15 @@ class ApiGen(object):
             kind = "add"
         if kind == "add":
             self.nid += 1
-            d = rand_region(r, "r%d" % self.nid, big=(self.prop == "C12" and r.random() < 0.3))
+            rid = "r%d" % self.nid
+            if r.random() < 0.08:
+                rid = r.choice([0, "", False, 0.0, "0"])     # explicit but falsy ids are ids too
+                if any(x["id"] == rid for x in self.regs):
+                    kind = "dup"
+            d = rand_region(r, rid, big=(self.prop == "C12" and r.random() < 0.3))
+            if kind == "dup":
+                self.emit(op="api", cmd="addExcludeRegion", data=d, kind=kind)
+                return
             self.emit(op="api", cmd="addExcludeRegion", data=d, kind=kind)
             self.regs.append(norm_region(d))
         elif kind == "add_auto":
